@@ -93,6 +93,24 @@ def _correspond(ctx, corr, sess, rng):
     corr.exhaustive["settc_all(65536 mirek values)"] = True
     corr.sample({"suite": "settc_all", "tc": 0x1234, "commands": "DTR0(0x34) DTR1(0x12) SetTemporaryColourTemperature Activate"})
 
+    # ---- generate now, transmit later (strengthening after seeded round 6): the sequences for several luminaires
+    # are generated first and their commands transmitted afterwards; each unit must still end up with ITS value
+    for i in range(400 if ctx.thorough else 120):
+        tc = rng.choice([0, 1, 255, 256, 0xFEFF, 0xFFFE, rng.randrange(65536)])
+        a = rng.randrange(64)
+        others = ["S%d" % ((a + 1 + rng.randrange(62)) % 64), rng.choice(["B", "G%d" % rng.randrange(16), "U"])]
+        rng.shuffle(others)
+        kind = "settc" if i % 3 else "settclimit"
+        bus = [L.unit(s=a, g=rng.randrange(65536), t=[8], co=1, wa=65534, tc=rng.randrange(65536)),
+               L.unit(s=(a + 7) % 64, t=[8], tc=77)]
+        sc = {"kind": kind, "class": "deferred", "dest": rng.choice(["S%d", "I%d"]) % a, "tc": "i:%d" % tc,
+              "w": "i:%d" % rng.randrange(4), "enum": True, "bus": bus, "deferred": others}
+        res = sess.run_deferred(sc)
+        L.judge(corr, "deferred_transmission", key_of(sc), sc, res,
+                "commands generated for one unit, kept, and transmitted after the same sequence was generated for "
+                "other destinations: the unit must end up with exactly the requested value")
+        corr.nontrivial(("deferred", kind, res["result"]))
+
     # ---- SetDT8TcLimit -----------------------------------------------------------------
     vals = [0, 1, 255, 256, 257, 0x7FFF, 0x8000, 0xFEFF, 0xFF00, 0xFFFE, 0xFFFF] + \
            [rng.randrange(65536) for _ in range(200 if ctx.thorough else 40)]
@@ -174,6 +192,38 @@ def _correspond(ctx, corr, sess, rng):
         if res["n"] != 0 or not res["result"].startswith("err"):
             corr.violate("reject:selector", sc, "TypeError before any command", res)
         corr.nontrivial(("reject-sel", q, res["result"], res["n"]))
+    # a selector obtained by VALUE LOOKUP of a code the table does not define (QueryColourValueDTR(n)): either the
+    # lookup itself refuses (ValueError - rejected before anything is sent), or the sequence must refuse what it is
+    # handed.  Never: a query for an undefined selector going out on the bus.
+    from dali.gear import sequences as GS
+    from dali import address as A
+    defined = {int(m.value) for m in colour.QueryColourValueDTR}
+    for n in range(256):
+        if n in defined:
+            continue
+        try:
+            sel = colour.QueryColourValueDTR(n)
+        except Exception:   # noqa - the lookup refused: nothing can be sent
+            corr.bump("reserved-selector:lookup-refuses")
+            corr.count("reserved_selectors")
+            continue
+        sent, outcome = 0, "?"
+        try:
+            g = GS.QueryDT8ColourValue(A.GearShort(1), sel)
+            x = next(g)
+            while True:
+                sent += 1
+                x = g.send(x.response(None) if getattr(x, "response", None) else None)
+        except StopIteration as e:
+            outcome = "returned %r" % (e.value,)
+        except Exception as e:  # noqa
+            outcome = "err " + type(e).__name__
+        if sent or not outcome.startswith("err"):
+            corr.violate("reject:selector", {"selector": "QueryColourValueDTR(%d)" % n, "defined": False},
+                         "rejected before anything is sent", "%d commands sent, %s" % (sent, outcome),
+                         "a selector that is not a query code of Table 11 must be rejected before anything is sent")
+        corr.count("reserved_selectors")
+    corr.exhaustive["reserved selector codes (every value 0..255 outside QueryColourValueDTR)"] = True
     for dest in ("I64", "I-1", "I1000"):
         for kind, extra in (("settc", {"tc": "i:300"}), ("settclimit", {"tc": "i:300", "w": "i:0"}),
                             ("qcolour", {"q": "i:2"})):
@@ -184,6 +234,28 @@ def _correspond(ctx, corr, sess, rng):
 
 def replay(ctx, payload):
     sc = payload.get("failure", {}).get("input")
+    if isinstance(sc, dict) and "selector" in sc:
+        from dali.gear import colour, sequences as GS
+        from dali import address as A
+        n = int(sc["selector"].split("(")[1].rstrip(")"))
+        try:
+            sel = colour.QueryColourValueDTR(n)
+        except Exception as e:  # noqa
+            print("QueryColourValueDTR(%d) ->" % n, type(e).__name__, "(rejected at the lookup)")
+            return False
+        sent = []
+        try:
+            g = GS.QueryDT8ColourValue(A.GearShort(1), sel)
+            x = next(g)
+            while True:
+                sent.append(str(x))
+                x = g.send(x.response(None) if getattr(x, "response", None) else None)
+        except StopIteration as e:
+            print("selector", sel, "-> sent", sent, "returned", e.value)
+            return True
+        except Exception as e:  # noqa
+            print("selector", sel, "-> sent", sent, "raised", type(e).__name__)
+            return bool(sent)
     if not isinstance(sc, dict) or "kind" not in sc:
         print("replay: no scenario recorded; run the quick check")
         return True
